@@ -179,11 +179,10 @@ func runC06(c *core.Ctx) {
 			}
 			nTrue++
 			if !isConst {
-				// returns an expression: must be the comparison itself
-				bo, ok := core.Canon(core.RetVal(ret, 0)).(*ssa.BinOp)
-				if !ok || bo.Op != token.EQL || !(derivesFromState(bo.X) && isDone(bo.Y) || derivesFromState(bo.Y) && isDone(bo.X)) {
+				// returns an expression: whenever it is true, state == StateDone must hold
+				if !core.AltsEstablish(core.ValueAlts(core.RetVal(ret, 0), true), core.Eq(derivesFromState, isDone)) {
 					good = false
-					why = "Authenticated() returns a value that is not the comparison of the state entry with StateDone"
+					why = "Authenticated() returns a value that can be true without the state entry being equal to StateDone"
 				}
 				continue
 			}
@@ -464,6 +463,11 @@ func derivedFromLookup(v ssa.Value, m ssa.Value, key string, depth int) bool {
 		s, ok := core.ConstString(x.Index)
 		return ok && s == key && core.Canon(x.X) == core.Canon(m)
 	case *ssa.Extract:
+		if call, ok := x.Tuple.(*ssa.Call); ok {
+			if ok2, handled := derivedThroughHelper(call, x.Index, m, key, depth); handled {
+				return ok2
+			}
+		}
 		return derivedFromLookup(x.Tuple, m, key, depth+1)
 	case *ssa.TypeAssert:
 		return derivedFromLookup(x.X, m, key, depth+1)
@@ -477,6 +481,9 @@ func derivedFromLookup(v ssa.Value, m ssa.Value, key string, depth int) bool {
 	case *ssa.Call:
 		if f := x.Call.StaticCallee(); f != nil && f.Name() == "Value" && len(x.Call.Args) == 1 {
 			return derivedFromLookup(x.Call.Args[0], m, key, depth+1)
+		}
+		if ok2, handled := derivedThroughHelper(x, 0, m, key, depth); handled {
+			return ok2
 		}
 	case *ssa.UnOp:
 		if x.Op == token.MUL {
@@ -541,6 +548,50 @@ func credentialArg(v ssa.Value, fn *ssa.Function, key string) bool {
 			return derivedFromLookup(ta.X, capParam, key, 0)
 		case *ssa.Convert:
 			return walk(x.X, depth+1)
+		case *ssa.Extract:
+			// (str, valid) := helper(cap, key): used only across valid == true, and the
+			// helper returns "" or the checked string of cap[key] whenever valid is true
+			call, ok := x.Tuple.(*ssa.Call)
+			if !ok || x.Index != 0 {
+				return false
+			}
+			h := call.Call.StaticCallee()
+			if h == nil || h.Pkg != fn.Pkg || len(h.Blocks) == 0 {
+				return false
+			}
+			isValid := func(y ssa.Value) bool {
+				e2, ok := core.Canon(y).(*ssa.Extract)
+				return ok && e2.Tuple == ssa.Value(call) && e2.Index == 1
+			}
+			// every use of the result in fn that reaches the verdict must be behind valid == true:
+			// check at the Authenticator call sites
+			for _, cc := range core.Calls(fn) {
+				k := cc.Common()
+				if k.IsInvoke() && k.Method.Name() == "Authenticate" && core.TypeIs(k.Value.Type(), "bus", "Authenticator") {
+					uses := false
+					for _, a := range k.Args {
+						if core.Canon(a) == ssa.Value(x) {
+							uses = true
+						}
+					}
+					if uses && !core.Guarded(fn, cc.(ssa.Instruction), core.IsTrue(isValid)) {
+						return false
+					}
+				}
+			}
+			ok2, handled := derivedThroughHelper(call, 0, capParam, key, 0)
+			if !handled || !ok2 {
+				return false
+			}
+			// inside the helper the string comes from a checked StringValue assertion
+			for _, b := range h.Blocks {
+				for _, in := range b.Instrs {
+					if ta, isTA := in.(*ssa.TypeAssert); isTA && core.TypeIs(ta.AssertedType, "type/value", "StringValue") && !ta.CommaOk {
+						return false
+					}
+				}
+			}
+			return true
 		}
 		return false
 	}
@@ -595,19 +646,55 @@ func ruleClientMap(c *core.Ctx, capMap *types.Named, chanCap *types.Var) {
 	}
 	bad := ""
 	nLookups := 0
-	for _, u := range allUses(capParam) {
-		lk, ok := u.(*ssa.Lookup)
-		if ok && core.Canon(lk.X) == capParam {
-			s, isConst := core.ConstString(lk.Index)
-			if isConst && (s == "auth_user" || s == "auth_token") {
-				nLookups++
+	credKey := func(s string) bool { return s == "auth_user" || s == "auth_token" }
+	var scan func(fn *ssa.Function, m ssa.Value, keyParams map[ssa.Value]bool, depth int)
+	scan = func(fn *ssa.Function, m ssa.Value, keyParams map[ssa.Value]bool, depth int) {
+		for _, u := range allUses(m) {
+			if u.Parent() != fn {
 				continue
 			}
-			bad = "the client map is looked up under a key other than the user/token keys (at " + c.Pos(lk.Pos()) + ")"
-			continue
+			if lk, ok := u.(*ssa.Lookup); ok && core.Canon(lk.X) == m {
+				if s, isConst := core.ConstString(lk.Index); isConst && credKey(s) {
+					nLookups++
+					continue
+				}
+				if keyParams[core.Canon(lk.Index)] {
+					nLookups++
+					continue
+				}
+				bad = "the client map is looked up under a key other than the user/token keys (at " + c.Pos(lk.Pos()) + ")"
+				continue
+			}
+			// handed to a private helper together with a constant credential key
+			if call, ok := u.(*ssa.Call); ok && depth < 2 {
+				if h := call.Call.StaticCallee(); h != nil && isPrivateHelper(c, h) && h.Pkg == fn.Pkg {
+					kp := map[ssa.Value]bool{}
+					mi := -1
+					okArgs := true
+					for i, a := range call.Call.Args {
+						switch {
+						case core.Canon(a) == m:
+							mi = i
+						default:
+							if s, isConst := core.ConstString(a); isConst {
+								if credKey(s) {
+									kp[h.Params[i]] = true
+								} else if types.Identical(a.Type().Underlying(), types.Typ[types.String]) {
+									okArgs = false
+								}
+							}
+						}
+					}
+					if mi >= 0 && okArgs && len(kp) > 0 {
+						scan(h, h.Params[mi], kp, depth+1)
+						continue
+					}
+				}
+			}
+			bad = "the client-supplied capability map is used for more than credential lookups: " + u.String() + " at " + c.Pos(u.Pos()) + " (iterated, stored, merged, returned or passed on)"
 		}
-		bad = "the client-supplied capability map is used for more than credential lookups: " + u.String() + " at " + c.Pos(u.Pos()) + " (iterated, stored, merged, returned or passed on)"
 	}
+	scan(saAuth, capParam, map[ssa.Value]bool{}, 0)
 	c.Check(bad == "" && nLookups >= 2, rule, "bus.serviceAuthenticate.Authenticate/client-map", saAuth.Pos(), "only cap[KeyUser] and cap[KeyToken] lookups", bad)
 	// the reply: server's map or an error map, never the client's
 	capErr := c.Func("bus", "serviceAuthenticate", "capError")
@@ -659,4 +746,104 @@ func ruleClientMap(c *core.Ctx, capMap *types.Named, chanCap *types.Var) {
 	if n == 0 {
 		c.Pass(rule, "channel-map-store", chanCap.Pos(), "no store into a Channel's capability map outside CapabilityMap.SetAuthenticated")
 	}
+}
+
+// derivedThroughHelper: result idx of a call to a helper of package bus that
+// receives the map m: every value it can return there (on returns whose
+// boolean companion, if any, is not constant false) derives from m[key] inside
+// the helper.  The key may be a constant in the helper or a parameter bound to
+// the constant at the call site.
+func derivedThroughHelper(call *ssa.Call, idx int, m ssa.Value, key string, depth int) (bool, bool) {
+	h := call.Call.StaticCallee()
+	if h == nil || len(h.Blocks) == 0 || h.Pkg == nil || !strings.HasSuffix(h.Pkg.Pkg.Path(), "/bus") || depth > 6 {
+		return false, false
+	}
+	if h.Name() == "Value" {
+		return false, false
+	}
+	mi := -1
+	for i, a := range call.Call.Args {
+		if core.Canon(a) == core.Canon(m) && i < len(h.Params) {
+			mi = i
+		}
+	}
+	if mi < 0 {
+		return false, false
+	}
+	// key parameters bound to the constant at this call site
+	keyParams := map[ssa.Value]bool{}
+	for i, a := range call.Call.Args {
+		if s, ok := core.ConstString(a); ok && s == key && i < len(h.Params) {
+			keyParams[h.Params[i]] = true
+		}
+	}
+	n := 0
+	for _, r := range core.Returns(h) {
+		if idx >= len(r.Results) {
+			return false, true
+		}
+		// skip returns whose ok companion is constant false
+		skip := false
+		for j := range r.Results {
+			if j == idx {
+				continue
+			}
+			if b, isConst := core.ConstBool(core.RetVal(r, j)); isConst && !b {
+				skip = true
+			}
+		}
+		if skip {
+			continue
+		}
+		n++
+		if !derivedInHelper(core.RetVal(r, idx), h.Params[mi], key, keyParams, depth+1) {
+			return false, true
+		}
+	}
+	return n > 0, true
+}
+
+func derivedInHelper(v ssa.Value, m ssa.Value, key string, keyParams map[ssa.Value]bool, depth int) bool {
+	if depth > 10 {
+		return false
+	}
+	v = core.StripConv(v)
+	switch x := v.(type) {
+	case *ssa.Const:
+		// zero value returned together with "absent": acceptable (empty credential / no state)
+		if s, ok := core.ConstString(x); ok {
+			return s == ""
+		}
+		return false
+	case *ssa.Lookup:
+		if core.Canon(x.X) != core.Canon(m) {
+			return false
+		}
+		if s, ok := core.ConstString(x.Index); ok {
+			return s == key
+		}
+		return keyParams[core.Canon(x.Index)]
+	case *ssa.Extract:
+		return derivedInHelper(x.Tuple, m, key, keyParams, depth+1)
+	case *ssa.TypeAssert:
+		return derivedInHelper(x.X, m, key, keyParams, depth+1)
+	case *ssa.Phi:
+		for _, e := range x.Edges {
+			if !derivedInHelper(e, m, key, keyParams, depth+1) {
+				return false
+			}
+		}
+		return len(x.Edges) > 0
+	case *ssa.Call:
+		if f := x.Call.StaticCallee(); f != nil && f.Name() == "Value" && len(x.Call.Args) == 1 {
+			return derivedInHelper(x.Call.Args[0], m, key, keyParams, depth+1)
+		}
+	case *ssa.UnOp:
+		if x.Op == token.MUL {
+			if d := core.Canon(x); d != ssa.Value(x) {
+				return derivedInHelper(d, m, key, keyParams, depth+1)
+			}
+		}
+	}
+	return false
 }
